@@ -226,6 +226,7 @@ type c04Call struct {
 	blen, mode, cut int
 	reqClose        bool
 	entry           int // 0 Do, 1 DoTimeout, 2 DoDeadline
+	failK           int // >= 0: the request body is a stream (declared size failK+1000) whose Read fails after failK bytes
 	end             int // how the caller ends the call: 0 CloseBodyStream 1 ReleaseResponse 2 Reset 3 reuse of the Response
 	carried         bool
 	readK           int
@@ -238,7 +239,13 @@ type c04Call struct {
 
 // c04Decode turns 9 script bytes into a call (total, so that shrunk inputs stay valid).
 func c04Decode(b []byte, stream bool, maxBody int) *c04Call {
-	c := &c04Call{method: int(b[0]) % 4, mode: int(b[3]) % 6, reqClose: b[6]%4 == 0, entry: int(b[6]/4) % 3}
+	c := &c04Call{method: int(b[0]) % 4, mode: int(b[3]) % 6, reqClose: b[6]%4 == 0, entry: int(b[6]/4) % 3, failK: -1}
+	if (c.method == 1 || c.method == 3) && (b[0]/4)%4 == 3 {
+		// an upload that breaks: around and above the 4096-byte write buffer, so that part of the request may already
+		// be on the connection
+		c.failK = []int{0, 100, 4000, 4096, 5000, 9000, 20000, 4097}[int(b[0]/16)%8]
+		c.mode = 6
+	}
 	lens := []int{0, 10, 64, 100, 163, 700, 5000}
 	c.blen = lens[int(b[1])%len(lens)]
 	if b[2]%5 == 0 {
@@ -274,6 +281,29 @@ func c04b2b(b bool) byte {
 	return 0
 }
 
+// c04FailingBody is a request body stream that yields `left` bytes and then fails (not a network error).
+type c04FailingBody struct{ left int }
+
+var errC04Upload = errors.New("the upload source broke")
+
+func (b *c04FailingBody) Read(p []byte) (int, error) {
+	if b.left <= 0 {
+		return 0, errC04Upload
+	}
+	n := len(p)
+	if n > b.left {
+		n = b.left
+	}
+	if n > 512 {
+		n = 512
+	}
+	for i := range p[:n] {
+		p[i] = 'u'
+	}
+	b.left -= n
+	return n, nil
+}
+
 type c04Doer interface {
 	Do(req *fasthttp.Request, resp *fasthttp.Response) error
 	DoTimeout(req *fasthttp.Request, resp *fasthttp.Response, timeout time.Duration) error
@@ -296,7 +326,9 @@ func c04Do(cl c04Doer, host string, c *c04Call, stream bool, carry **fasthttp.Re
 	defer fasthttp.ReleaseRequest(req)
 	req.SetRequestURI(fmt.Sprintf("http://%s/r?t=%d&b=%d&m=%d&k=%d", host, c.tag, c.blen, c.mode, c.cut))
 	req.Header.SetMethod(c04Methods[c.method])
-	if c.method == 1 || c.method == 3 {
+	if c.failK >= 0 {
+		req.SetBodyStream(&c04FailingBody{left: c.failK}, c.failK+1000)
+	} else if c.method == 1 || c.method == 3 {
 		req.SetBodyString("payload")
 	}
 	if c.reqClose {
@@ -306,7 +338,16 @@ func c04Do(cl c04Doer, host string, c *c04Call, stream bool, carry **fasthttp.Re
 	var err error
 	switch {
 	case c.entry == 0 && (c.mode == 0 || c.mode == 1):
-		err = cl.Do(req, resp)
+		// no deadline: if the call never returns (its response went elsewhere), report it instead of letting virtual
+		// time run away under the blocked root goroutine
+		doneCh := make(chan error, 1)
+		go func() { doneCh <- cl.Do(req, resp) }()
+		select {
+		case err = <-doneCh:
+		case <-time.After(500 * time.Hour):
+			c.res = "stuck"
+			return
+		}
 	case c.entry == 2:
 		err = cl.DoDeadline(req, resp, time.Now().Add(c04Timeout))
 	default:
@@ -353,6 +394,9 @@ var c04Ends = []string{"CloseBodyStream", "ReleaseResponse", "Reset", "reuse of 
 
 // c04Check is the property monitor for one finished call.
 func c04Check(c *c04Call) (string, string) {
+	if c.res == "stuck" {
+		return "call-stuck", fmt.Sprintf("call %d (%s via Do) never returned although the scripted server answers every request it receives completely", c.tag, c04Methods[c.method])
+	}
 	if c.res != "ok" {
 		return "", ""
 	}
@@ -424,6 +468,13 @@ func c04Host(a [][]byte) *Case {
 			w.mu.Lock()
 			n0 := len(w.arrivals)
 			w.mu.Unlock()
+			if carry != nil && c.failK >= 0 {
+				// a request that cannot be written closes its connection without a request arriving anywhere: to keep
+				// "dropped by the reuse" and "closed by the failed write" apart, the carried Response is reset first
+				carry.Reset()
+				settle()
+				resolvePending()
+			}
 			c04Do(hc, "c04.test", c, stream, &carry)
 			settle()
 			// the previous call's Response was reused by this one: its stream has been dropped by now
@@ -932,7 +983,7 @@ func c04Conc(a [][]byte) *Case {
 func init() {
 	Register(&Prop{
 		ID: "C04",
-		Rule: "host: 2..10 sequential tagged calls on a HostClient (GET/POST/HEAD/PUT x body 0..5000 x server: full keep-alive | full close | cut inside head | cut after k body bytes | stall inside head | stall after k body bytes (tail arrives later) " +
+		Rule: "host: 2..10 sequential tagged calls on a HostClient (GET/POST/HEAD/PUT, some POST/PUT with a request body stream that breaks after 0..20000 bytes (around and above the write buffer) x body 0..5000 x server: full keep-alive | full close | cut inside head | cut after k body bytes | stall inside head | stall after k body bytes (tail arrives later) " +
 			"x request Connection: close x streamed body read for 0|1|half|k|all bytes and then ended by CloseBodyStream | ReleaseResponse | Reset | reusing the same Response for the next call), StreamResponseBody with MaxResponseBodySize 0|64|200, LIFO/FIFO; " +
 			"every call goes through one of the three entry points Do / DoTimeout / DoDeadline (Do only where the scripted server answers completely); pipe: 2..12 pipelined GET/POST/HEAD requests written in issue order, answered in order, with and without slow answers, call timeouts and a PipelineClient.ReadTimeout shorter than the slowest answers (late responses), optionally a second wave of requests after the late answers, or slow uploads (request body streams held back past the call's deadline while the writer is inside the request write, further requests behind them), or a server that closes the connection while the client's Close of it is slow to start (calls taken by the old writer after its reader has gone, then reconnect and further calls); " +
 			"conc: 3..6 concurrent callers on a Client over two hosts with the same scripts; " +
